@@ -72,7 +72,9 @@ def get_field(d, name):
     try:
         v = getattr(d, name)
         if name in _CALL:
-            v = v()
+            # by POSITION, not by name: with a repeated channel name the name-based default would report the
+            # first of the equally named columns twice
+            v = v(list(range(len(d.channels))))
         return ('ok', v)
     except Exception as e:
         return ('exc', type(e).__name__)
@@ -88,6 +90,8 @@ def sample_state(d, exact=True, with_acq=True):
         if f == 'infile' and k == 'ok' and isinstance(v, str):
             # the scratch directory differs from process to process: keep the digest replayable
             v = 'path:' + os.path.basename(v)
+        elif f == 'infile' and k == 'ok' and v is not None and not isinstance(v, (int, float)):
+            v = 'fileobj:' + type(v).__name__
         st[f] = (k, canon(v) if k == 'ok' else v)
     if with_acq:
         k, v = get_field(d, 'acquisition_time')
